@@ -32,6 +32,8 @@ CHECKS = {
          "primary (probed) vs un-probed replica vs replica restarted after every height vs replica crashed between FinalizeBlock and Commit at every height: AppHash, tx results and block-event multisets equal after every block", "6/C19", TB),
  "C14": ("exploration", "pre-message / post-tx probe monitor against an independent linear-schedule reference",
          "every successful vest / claim / cancel / vest-now of an observed account is compared (entries, claimable Eden, uelys balance before vs after) with the monitor's own schedule floor(Total*min(h-start,N)/N); conservation Eden in == released + returned + still vesting; every claim by an account with entries must succeed (judged from the block log so panics count)", "6/C14", TB),
+ "C16": ("exploration", "reference-model monitor (price map + feeder set) compared online at commits and pre-message probes",
+         "every GetAssetPrice / GetAssetPriceFromDenom answer for an adversarial name set is compared with a reference map built from the observed successful feeds and the end-block expiry rule; the whole price store must equal the reference after every block; every feed is judged against the reference feeder set", "6/C16", TB),
 }
 
 m = {"version": 1, "setup_cmd": "./setup.sh",
